@@ -162,11 +162,27 @@ func genForeign(r *rand.Rand, i int) foreignHello {
 	}
 	r.Shuffle(len(exts), func(a, c int) { exts[a], exts[c] = exts[c], exts[a] })
 	// pre_shared_key must be last for crypto/tls; not generated here.
-	var e []byte
-	for _, x := range exts {
-		e = be16(e, x.t)
-		e = vec16(e, x.d)
+	encExts := func() []byte {
+		var e []byte
+		for _, x := range exts {
+			e = be16(e, x.t)
+			e = vec16(e, x.d)
+		}
+		return e
 	}
+	if mode == 7 && r.Intn(2) == 0 {
+		// the record-size boundary: a ClientHello fragment of exactly 2^14 bytes and just below it is legal TLS
+		for k := range exts {
+			if exts[k].t == 21 {
+				exts[k].d = nil
+				l0 := 4 + len(b) + 2 + len(encExts())
+				target := []int{16384, 16383, 16382, 16381, 16380, 16379}[r.Intn(6)]
+				exts[k].d = make([]byte, target-l0)
+				shape = append(shape, "limit")
+			}
+		}
+	}
+	e := encExts()
 	noExtBlock := mode == 4 && r.Intn(3) == 0
 	emptyExtBlock := mode == 4 && !noExtBlock && r.Intn(3) == 0
 	switch {
